@@ -642,7 +642,11 @@ func catalogue(quick bool) []job {
 			func() stepIn { s := base(tc(0x82), ans(1)); s.qb2 = 0x00; return s }()},
 		// TCP reply: 12 bytes (refused by the reader), 13 bytes, TC set, foreign id
 		{func() stepIn { s := base(tc(0x82), tcpBeh{kind: tAnswer, b2: 0x80, b3: 0}); s.qn = 0; return s }(),
-			func() stepIn { s := base(tc(0x82), tcpBeh{kind: tAnswer, b2: 0x80, b3: 0, bn: 1, bseed: 4}); s.qn = 0; return s }(),
+			func() stepIn {
+				s := base(tc(0x82), tcpBeh{kind: tAnswer, b2: 0x80, b3: 0, bn: 1, bseed: 4})
+				s.qn = 0
+				return s
+			}(),
 			base(tc(0x82), tcpBeh{kind: tAnswer, b2: 0x82, b3: 0x80, an: 1, bn: 5, bseed: 4}),
 			base(tc(0x82), tcpBeh{kind: tAnswer, idflip: true, b2: 0x80, b3: 0x80, an: 1, bn: 5, bseed: 4})},
 		// UDP replies around the 4095 byte receive buffer, with and without TC
